@@ -38,14 +38,15 @@ CReset ==
 InitOK ==
   /\ Ev.before = cur                                         \* continuity of the log
   /\ (Ev.presence = "no") <=> (cur = "absent")
-  /\ \E o \in InitAllowed(Ev.presence, parentOK) :
+  /\ ~Ev.hang                                               \* failure is REPORTED: the command ends
+  /\ \E o \in (IF Ev.argc = 1 THEN InitAllowed(Ev.presence, parentOK) ELSE InitAllowedOtherArgs(Ev.presence)) :
        /\ o.ok = (Ev.exit = 0)
        /\ o.after = "same" => Ev.after = Ev.before /\ ~Ev.created
        /\ o.after = "created" => Ev.created /\ Ev.after # Ev.before /\ Ev.after # "absent"
   /\ Ev.elsewhere = << >>            \* created exactly there: nothing else in the tree is created, changed or removed
 CInit ==
   /\ cur' = Ev.after
-  /\ by' = IF Ev.created THEN Ev.pkg ELSE by
+  /\ by' = IF Ev.created THEN (IF Ev.argc = 1 THEN Ev.pkg ELSE None) ELSE by
   /\ UNCHANGED <<parentOK, gop, ran>>
 
 \* a'. n concurrent inits on the target path (one event: their exit statuses counted, the package string of
